@@ -301,12 +301,29 @@ type SelStep struct {
 }
 
 type CaseB struct {
-	Scripted bool      `json:"scripted"`
-	Allowed  []string  `json:"allowed"` // empty = all
-	MinConf  float64   `json:"min_conf"`
-	StabMS   int       `json:"stab_ms"`
-	Steps    []SelStep `json:"steps"`
+	Scripted bool `json:"scripted"`
+	// ViaSmart: decisions are requested through SmartRebalancer.Evaluate (over a detector without samples: the workload is
+	// unclassified) instead of from the selector directly; scripted strategy only
+	ViaSmart bool `json:"via_smart,omitempty"`
+	// ZeroLimits: the resource limits of the constraints (CPU, memory), which play no role in selection, are left at zero
+	ZeroLimits bool      `json:"zero_limits,omitempty"`
+	Allowed    []string  `json:"allowed"` // empty = all
+	MinConf    float64   `json:"min_conf"`
+	StabMS     int       `json:"stab_ms"`
+	Steps      []SelStep `json:"steps"`
 }
+
+// nullIndex is an index that accepts every mode transition (SmartRebalancer.Evaluate does not touch it).
+type nullIndex struct{}
+
+func (nullIndex) EnableLazyRebalancing(structures.LazyRebalancingConfig) error { return nil }
+func (nullIndex) EnableIncrementalRebalancing(structures.IncrementalRebalancingConfig) error {
+	return nil
+}
+func (nullIndex) DisableRebalancing() error                        { return nil }
+func (nullIndex) StartBackgroundRebalancing(context.Context) error { return nil }
+func (nullIndex) StopBackgroundRebalancing() error                 { return nil }
+func (nullIndex) GetFileSize() uint64                              { return 1 << 30 }
 
 type scripted struct{ next rebalancing.Decision }
 
@@ -316,7 +333,7 @@ func (s *scripted) Select(rebalancing.WorkloadFeatures, rebalancing.WorkloadType
 
 func genB(t *rapid.T) CaseB {
 	modes := []string{"none", "lazy", "incremental"}
-	c := CaseB{Scripted: rapid.Bool().Draw(t, "scripted"),
+	c := CaseB{ViaSmart: rapid.IntRange(0, 3).Draw(t, "viaSmart") == 0, ZeroLimits: rapid.IntRange(0, 3).Draw(t, "zeroLimits") == 0, Scripted: rapid.Bool().Draw(t, "scripted"),
 		MinConf: rapid.SampledFrom([]float64{0, 0.3, 0.5, 0.7, 0.9, 1}).Draw(t, "minconf"),
 		StabMS:  rapid.SampledFrom([]int{0, 1, 100, 1000, 30000}).Draw(t, "stab")}
 	for _, m := range modes {
@@ -362,6 +379,9 @@ func runB(c CaseB) vt.Verdict {
 	if err := cons.Validate(); err != nil {
 		return vt.Skipped("constraints not valid: %v", err)
 	}
+	if c.ZeroLimits {
+		cons.MaxCPUPercent, cons.MaxMemoryMB = 0, 0 // the gates (allowed modes, confidence, stability) are configured all the same
+	}
 	isAllowed := func(m string) bool { return len(c.Allowed) == 0 || allowed[m] }
 	opts := []rebalancing.SelectorOption{rebalancing.WithSafetyConstraints(cons), rebalancing.WithSelectorClock(clk)}
 	sc := &scripted{}
@@ -369,6 +389,12 @@ func runB(c CaseB) vt.Verdict {
 		opts = append(opts, rebalancing.WithStrategy(sc))
 	}
 	sel := rebalancing.NewConfigSelector(opts...)
+	var sr *rebalancing.SmartRebalancer
+	if c.ViaSmart && c.Scripted {
+		det := rebalancing.NewWorkloadDetector()
+		defer det.Close()
+		sr = rebalancing.NewSmartRebalancer(&nullIndex{}, rebalancing.WithSelector(sel), rebalancing.WithDetector(det), rebalancing.WithRebalancerClock(clk))
+	}
 	// invariant state: time of the last change of the returned mode among gate-passing decisions
 	haveMode := false
 	var curMode string
@@ -384,7 +410,15 @@ func runB(c CaseB) vt.Verdict {
 			feat = rebalancing.WorkloadFeatures{DeleteRatio: s.Del, WriteRatio: s.Wr, ReadRatio: 1 - s.Del - s.Wr, OperationRate: s.Rate, BurstDetected: s.Burst,
 				FileSize: uint64(s.FileMB) * 1024 * 1024, WindowDuration: time.Minute, SampleSize: s.Samples, ExtractedAt: clk.t}
 		}
-		d := sel.SelectConfig(feat, wt)
+		var d rebalancing.Decision
+		if sr != nil {
+			var err error
+			if d, err = sr.Evaluate(); err != nil {
+				return vt.Bad("step %d: SmartRebalancer.Evaluate: %v", i, err)
+			}
+		} else {
+			d = sel.SelectConfig(feat, wt)
+		}
 		m := string(d.Mode)
 		if m != "none" && m != "lazy" && m != "incremental" {
 			return vt.Bad("step %d: selector returned unknown mode %q", i, m)
